@@ -320,7 +320,8 @@ Apply(b, m) ==
 
 (* What somebody who alters a block in transit can recompute afterwards ("all1": the proposer   *)
 (* itself formats the altered content again; "all2full": another node formats it as its own).   *)
-Strategies == {"none", "root", "id", "rootid", "all2", "all2pk", "all2full", "all1"}
+Strategies == {"none", "root", "tree", "id", "rootid", "all2", "all2pk", "all2full", "all1"}
+FixTree(b) == [b EXCEPT !.tree = MakeTree(b.txs)]      \* only the (unsigned, unhashed) tree array; the header keeps its root
 FixRoot(b) == [b EXCEPT !.tree = MakeTree(b.txs), !.root = RootOf(MakeTree(b.txs))]
 FixCount(b) == [b EXCEPT !.txcount = Len(b.txs)]
 FixId(b) == [b EXCEPT !.id = MkId(b)]
@@ -328,6 +329,7 @@ Resign(b, k) == [b EXCEPT !.sign = SignBy(k, b)]
 Repair(b, st) ==
   CASE st = "none" -> b
     [] st = "root" -> FixRoot(b)
+    [] st = "tree" -> FixTree(b)
     [] st = "id" -> FixId(b)
     [] st = "rootid" -> FixId(FixRoot(b))
     [] st = "all2" -> Resign(FixId(FixRoot(FixCount(b))), "k2")
